@@ -159,16 +159,27 @@ class Ctx:
         self.harness = out
         return out
 
+    def build_harness_race(self):
+        """the same harness under the Go race detector"""
+        out = os.path.join(self.tmp, "mpbh_race")
+        hdir = os.path.join(VERIF, "harness")
+        cmd = ["go", "build", "-race", "-tags", "verif", "-o", out, "./cmd/mpbh"]
+        rc, o = sh(cmd, cwd=hdir, env=dict(GOENV, CGO_ENABLED="1"), timeout=900)
+        if rc != 0:
+            self.harness_error = o
+            return None
+        return out
+
     # ------------------------------------------------------------ running
-    def run_family(self, fam, n, seed=None, extra=None, tag="", timeout=1200, model=True, model_family=None):
+    def run_family(self, fam, n, seed=None, extra=None, tag="", timeout=1200, model=True, model_family=None, env=None, binary=None):
         seed = self.seed if seed is None else seed
         d = os.path.join(self.tmp, "%s%s.%d" % (fam, tag, seed))
         os.makedirs(d, exist_ok=True)
-        cmd = [self.harness, fam, "-seed", str(seed), "-n", str(n), "-tier", self.tier, "-out", d]
+        cmd = [binary or self.harness, fam, "-seed", str(seed), "-n", str(n), "-tier", self.tier, "-out", d]
         if extra:
             cmd += ["-extra", extra]
         t = time.time()
-        rc, out = sh(cmd, timeout=timeout, env=GOENV)
+        rc, out = sh(cmd, timeout=timeout, env=dict(GOENV, **(env or {})))
         res = {"dir": d, "rc": rc, "log": out, "family": fam, "seed": seed, "n": n}
         if model:
             rc2, out2 = sh([os.path.join(VERIF, "bin", "mpbmodel"), model_family or fam, d], timeout=timeout)
